@@ -187,30 +187,73 @@ def _helper_row(ci, call, nd, lv):
             for s2 in (st.body if flags[st.test.id] else st.orelse):
                 if isinstance(s2, ast.Assign) and isinstance(s2.targets[0], ast.Subscript) and isinstance(s2.targets[0].slice, ast.Constant):
                     comps.setdefault(norm(s2.targets[0].value), {})[s2.targets[0].slice.value] = he.ev(s2.value)
-    loops = []
-    node = [s for s in helper.body if isinstance(s, ast.For)]
-    if len(node) != 1:
-        return None
-    l = node[0]
-    while isinstance(l, ast.For):
-        loops.append(l)
-        inner = [s for s in l.body if isinstance(s, ast.For)]
-        if len(inner) == 1:
-            l = inner[0]
-        else:
-            break
-    if len(loops) != nd or any(norm(x.iter) not in comps or len(comps[norm(x.iter)]) != 4 for x in loops):
-        return None
-    store = [s for s in loops[-1].body if isinstance(s, ast.Assign) and norm(s.targets[0]) == 'result_view[l]']
-    inc = [s for s in loops[-1].body if isinstance(s, ast.AugAssign) and norm(s.target) == 'l' and norm(s.value) == '1']
-    if len(store) != 1 or len(inc) != 1 or loops[-1].body.index(inc[0]) < loops[-1].body.index(store[0]):
-        return None
+    # run the loop nest concretely: loop variables range over range(4) or over the four components of an axis;
+    # stores result_view[<integer expression>] = <product of components>
     row = {}
-    col = 0
-    for idx in itertools.product(range(4), repeat=nd):
-        e = SymEval({loops[k].target.id: comps[norm(loops[k].iter)][idx[k]] for k in range(nd)})
-        row[col] = e.ev(store[0].value)
-        col += 1
+    ienv = {}
+
+    class RowEval(SymEval):
+        def name(self, n):
+            if n.id in cenv:
+                return cenv[n.id]
+            return super().name(n)
+
+        def subscript(self, n):
+            b = norm(n.value)
+            if b in comps:
+                k = _int(n.slice)
+                if k is None or k not in comps[b]:
+                    raise ValueError('component index')
+                return comps[b][k]
+            return super().subscript(n)
+    cenv = {}
+
+    def _int(e):
+        from ..program import const_fold
+        class Sub(ast.NodeTransformer):
+            def visit_Name(self, n):
+                if n.id in ienv:
+                    return ast.copy_location(ast.Constant(value=ienv[n.id]), n)
+                return n
+        import copy
+        v = const_fold(Sub().visit(copy.deepcopy(e)))
+        return int(v) if v is not None and float(v) == int(v) else None
+
+    def ex(stmts):
+        for st in stmts:
+            if isinstance(st, ast.For) and isinstance(st.target, ast.Name):
+                it = st.iter
+                if isinstance(it, ast.Call) and dotted(it.func) == 'range' and len(it.args) == 1 and _int(it.args[0]) is not None:
+                    for k in range(_int(it.args[0])):
+                        ienv[st.target.id] = k
+                        ex(st.body)
+                elif norm(it) in comps and len(comps[norm(it)]) == 4:
+                    for k in range(4):
+                        cenv[st.target.id] = comps[norm(it)][k]
+                        ex(st.body)
+                else:
+                    raise ValueError('loop')
+            elif isinstance(st, ast.Assign) and isinstance(st.targets[0], ast.Name) and _int(st.value) is not None:
+                ienv[st.targets[0].id] = _int(st.value)
+            elif isinstance(st, ast.AugAssign) and isinstance(st.target, ast.Name) and st.target.id in ienv and isinstance(st.op, ast.Add) and _int(st.value) is not None:
+                ienv[st.target.id] += _int(st.value)
+            elif isinstance(st, ast.Assign) and isinstance(st.targets[0], ast.Subscript) and norm(st.targets[0].value) in ('result_view', 'result'):
+                k = _int(st.targets[0].slice)
+                if k is None:
+                    raise ValueError('store index')
+                row[k] = RowEval().ev(st.value)
+            elif isinstance(st, (ast.If, ast.Expr, ast.AnnAssign, ast.Return, ast.Pass)):
+                continue
+            elif isinstance(st, ast.Assign):
+                continue
+            else:
+                raise ValueError('statement')
+    try:
+        ex(helper.body)
+    except ValueError:
+        return None
+    if sorted(row) != list(range(4 ** nd)):
+        return None
     return row
 
 
